@@ -25,20 +25,24 @@ SPECS = {
               "Tie: every stored command of random multi-level histories is replayed through the model inside Coq - apply, listener and key-command "
               "prediction must reproduce the observed CertAuth and CaObjects states - and the executable invariants (mirror of key states and object "
               "sets, products = published set, disjointness, used keys have certificates) are evaluated on the implementation states." " Second scenario (keystates): the implementation's KeyState in every key state with every combination of open certificate requests (built from real keys) is handed to append_keyroll_activate / revoke and compared with the model in Coq (ca/KeyCheck.v) - states a synchronous parent never produces are reached this way."
-              " Third scenario (migrate): repository migration, which rides on the key roll, is now exercised. Theorems (ca/Migrate.v, ca/MigrateProofs.v) by induction over "
-              "arbitrary sequences of migrations, per-class roll steps, class additions/removals, certificate re-issues and clean-ups: a repository on the deprecated list "
-              "(which the next synchronisation empties) is never the place where any key set of any class publishes - refuted for the variant whose Staging arm of has_old_repo "
-              "ignores the active key's set, and when a migration targets a repository still awaiting clean-up; every set publishes where its certificate points unless a "
-              "certificate is re-issued for a key tied to the old repository (refuted otherwise); the step that takes the last set off a repository deprecates it, and once "
-              "every class has finished the old repository is deprecated or cleaned. Tie: a CA with two resource classes (two parents), ROAs in both and a child certificate "
-              "is migrated between three publishers with the classes rolling at different speeds (one class finishes while the other is staged), interleaved with parent syncs, "
-              "activations, ROA changes, further migrations, parent removal/re-addition and plain rolls; per operation the stored CaObjects/CertAuth states before, after the "
-              "command and after the repository synchronisation must equal the model's (m_agrees) and satisfy the invariant, with every product of every class present in the "
-              "live publisher content where its key's certificate points and nothing left behind in abandoned publishers (m_ok)."),
+              " Third scenario (migrate): repository migration, which rides on the key roll, is exercised. Theorems (ca/Migrate.v, ca/MigrateProofs.v) by induction over "
+              "arbitrary sequences of migrations (also back to a repository that still awaits its clean-up), per-class roll steps, class additions/removals, certificate "
+              "re-issues and clean-ups, without any assumption about the environment: a repository on the deprecated list (which the next synchronisation empties) is never "
+              "the place where any key set of any class publishes, and every set publishes where its key's certificate points; regression witnesses refute both for earlier "
+              "behaviour (Staging arm of has_old_repo ignoring the active key's set - the seeded change; a migration leaving its target on the deprecated list - F04e, "
+              "repaired in /repo 1c1bdf32; a re-issued certificate naming the new repository for a key still tied to the old one - F04d, repaired in /repo c6a66d92); the "
+              "step that takes the last set off a repository deprecates it, and once every class has finished the old repository is deprecated, cleaned or current again. "
+              "Tie: a CA with two resource classes (two parents), ROAs in both and a child certificate is migrated between three publishers with the classes rolling at "
+              "different speeds (one class finishes while the other is staged), interleaved with parent syncs, activations, ROA changes, entitlement changes during the "
+              "migration, further migrations (also back before the clean-up, with a class staging its new key there), parent removal/re-addition and plain rolls; per "
+              "operation the stored CaObjects/CertAuth states before, after the command and after the repository synchronisation must equal the model's (m_agrees) and "
+              "satisfy the invariant and both statements, the synchronisation must succeed, every product of every class must be present in the live publisher content "
+              "where its key's certificate points and nothing may be left behind in abandoned publishers (m_ok)."),
         note=NOTE + ("Outside: interleavings at the level of OS threads (C18); delayed TA signer responses are exercised only through the embedded signer. "
                      "Migration scenario: the second and third publisher live on the same embedded publication server and are reached with signed RFC 8181 messages over a "
-                     "plain-HTTP front inside the harness; entitlement changes during a migration (--entitle 1) and a migration back to a repository that still awaits its "
-                     "clean-up (--stale 1) are excluded from the default run because the model's theorems exclude them by hypothesis (both reproduce on the real code: `migrate --entitle 1 --only 0` and `migrate --stale 1 --only 0`)."),
+                     "plain-HTTP front inside the harness. The key-level old_repo of keys.rs is not a separate component of the model: it is set and moved together with the "
+                     "set-level mark of publishing.rs (argued in Migrate.v, checked by the correspondence through the re-issued certificates' SIA). A clean-up that fails "
+                     "(unreachable old server, attempt counter) is not exercised."),
         technique="Coq proof over CA key/object-set model (case analysis + invariants) + event-level correspondence evaluated in Coq"),
     "C03": dict(
         evals=["agrees", "c03_ok"], info=["hyps_ok"],
@@ -91,7 +95,7 @@ META = {{
 
 for pid, sp in SPECS.items():
     footer = "\n".join("Eval vm_compute in (failing %s base_index cases)." % e for e in sp["evals"])
-    txt = TEMPLATE.format(pid=pid, evals=sp["evals"], info=sp.get("info", []), xs=([{'scenario': 'keystates', 'evals': ['k_ok']}] if pid in ("C03", "C04") else []) + ([{'scenario': 'migrate', 'evals': ['m_agrees', 'm_ok'], 'extra': {'quick': {'histories': 12, 'ops': 14}, 'thorough': {'histories': 64, 'ops': 30}},
+    txt = TEMPLATE.format(pid=pid, evals=sp["evals"], info=sp.get("info", []), xs=([{'scenario': 'keystates', 'evals': ['k_ok']}] if pid in ("C03", "C04") else []) + ([{'scenario': 'migrate', 'evals': ['m_agrees', 'm_ok'], 'extra': {'quick': {'histories': 12, 'ops': 12}, 'thorough': {'histories': 64, 'ops': 30}},
                                  'replay_header': "From KV Require Import base.Tac ca.Migrate ca.MigrateCheck.\nOpen Scope N_scope.",
                                  'replay_footer': "Eval vm_compute in (failing m_agrees base_index cases).\nEval vm_compute in (failing m_ok base_index cases)."}] if pid == "C04" else []),
                           targets=['props/%s.vo' % pid, 'ca/CaCheck.vo', 'ca/CaOracleProofs.vo', 'ca/KeyCheck.vo'] + (['ca/MigrateCheck.vo', 'ca/MigrateProofs.vo'] if pid == "C04" else []), ev=",".join(sp["evals"] + sp.get("info", [])), footer=footer, assump=COMMON_ASSUMP,
